@@ -138,19 +138,19 @@ CLAIMED = {
         "monotone competitors with the Pythagorean gap, uniqueness, preservation of weighted totals. Tie to source: skeleton match + translated leaves "
         "of pava/isotonic_regression with bridge lemmas, and a correspondence run (model evaluated by vm_compute vs the real function).",
    note="Exact arithmetic (Q, transported to R); float rounding not modelled (1e-9 relative tolerance in the comparator; block vectors compared exactly on the dyadic-exact stream). "
-        "max-min formula is not proved (kept as full statement; uniqueness pins the same object). Axioms: only the standard library's real-number axioms.",
+        "The max-min formula is proved too (both directions, quantified form and executable fold). Axioms: only the standard library's real-number axioms.",
    technique="Coq proof (GPAVA certificate invariant + optimality from certificate) + skeleton/leaf translation + vm_compute correspondence", ref="4 C01"),
  "C02": dict(
    text="Machine-checked proof (Coq) about the executable model of the quantile/median path of isotonic_regression (gpava with the inverted-CDF lower quantile, "
         "upper quantile per block, running minimum, midpoint): totality, monotonicity, pinball-optimality against all real monotone sequences, range within data, "
         "flatness of the block loss between lower and upper quantile, result >= lower solution. Tie: skeleton+leaves of gpava/quantile_lower/quantile_upper/isotonic_regression and correspondence.",
-   note="Partial: 'between the smallest and the largest optimal solution' is proved only as result >= lower-quantile solution; np.quantile(method='inverted_cdf') is modelled by its definition "
-        "and compared with numpy on every run. Float-unsafe (level, n) pairs are judged by loss, not by value.",
+   note="'Between the smallest and the largest optimal solution' is proved in full (the lower-quantile GPAVA solution is the pointwise smallest, the mirrored one the pointwise largest minimiser; the result lies between). "
+        "np.quantile(method='inverted_cdf') is modelled by its definition and compared with numpy on every run. Float-unsafe (level, n) pairs are judged by loss, not by value.",
    technique="Coq proof (GPAVA certificate, pinball sub-gradient instance) + skeleton/leaf translation + vm_compute correspondence", ref="4 C02"),
  "C03": dict(
    text="Machine-checked proof (Coq) about the model of isotonic_regression(functional='expectile'): totality, monotonicity, optimality and uniqueness for the asymmetric squared loss "
         "against all real monotone competitors, level 1/2 equals the mean fit, identification function sums to zero per block. Tie: skeleton+leaves of gpava/isotonic_regression and correspondence.",
-   note="scipy.stats.expectile is modelled by an exact rational root (expectile_Q, proved to be a root) and compared with scipy at 1e-9 on every run. max-min formula not proved (uniqueness pins the object).",
+   note="scipy.stats.expectile is modelled by an exact rational root (expectile_Q, proved to be a root) and compared with scipy at 1e-9 on every run. The max-min formula is proved too.",
    technique="Coq proof (GPAVA certificate, asymmetric-LS instance) + skeleton/leaf translation + vm_compute correspondence", ref="4 C03"),
 
  "C18": dict(
